@@ -28,7 +28,7 @@ from pybtex.textutils import width
 class BaseLabelStyle(Plugin):
     def get_longest_label(self, formatted_entries):
         labels = (entry.label for entry in formatted_entries)
-        return max(labels, key=width)
+        return max(labels, key=width, default='')
 
     def format_labels(self, sorted_entries):
         raise NotImplementedError
